@@ -337,3 +337,104 @@ Definition sview_eqb (a b : sview) : bool :=
   match a, b with (ra, da, wa), (rb, db, wb) => result_eqb ra rb && disk_eqb da db && Bool.eqb wa wb end.
 Definition obs_eqb (a b : list sview * list hview) : bool :=
   list_eqb sview_eqb (fst a) (fst b) && list_eqb hview_eqb (snd a) (snd b).
+
+(* --- the CLI call sites as programs over ONE handle's life ---------------------------------------- *)
+(* what one process sees of its own handle: the load (with the `promoted` flag it got back), then
+   its Cluster calls with their results *)
+Inductive lev := LLoaded (promoted : bool) | LOp (o : hop) (r : result).
+
+(* the CLI's own bookkeeping: `promoted` as returned, cleared by a successful demote;
+   None = it called demote_from_submitter without holding a promotion *)
+Definition local_step (p : bool) (e : lev) : option bool :=
+  match e with
+  | LLoaded b => Some b
+  | LOp HPromote (RBool true) => Some true
+  | LOp HDemote RNoHandle => Some p
+  | LOp HDemote r => if p then Some (match r with ROk => false | _ => true end) else None
+  | LOp _ _ => Some p
+  end.
+Fixpoint local_ok (p : bool) (evs : list lev) : bool :=
+  match evs with
+  | [] => true
+  | e :: r => match local_step p e with Some p' => local_ok p' r | None => false end
+  end.
+
+Definition owner (e : op * result) : option nat :=
+  match e with
+  | (Load _ _ _, RLoaded k _) => Some k
+  | (Do k _, _) => Some k
+  | _ => None
+  end.
+Definition to_local (e : op * result) : lev :=
+  match e with
+  | (Load _ _ _, RLoaded _ p) => LLoaded p
+  | (Do _ o, r) => LOp o r
+  | (_, r) => LOp HReloadJobs r
+  end.
+Fixpoint events_of (i : nat) (tr : list (op * result)) : list lev :=
+  match tr with
+  | [] => []
+  | e :: r => match owner e with
+              | Some k => if Nat.eqb k i then to_local e :: events_of i r else events_of i r
+              | None => events_of i r
+              end
+  end.
+Definition bit_of (s : state) (i : nat) : bool :=
+  match nth_error (s_handles s) i with Some h => h_promoted h | None => false end.
+
+(* Cluster calls that neither promote nor demote (update_job_status, mark_complete, mark_canceled,
+   complete_hpc_job_id, prepare_for_resubmission, ...) *)
+Definition neutral (e : lev) : bool :=
+  match e with LOp HPromote _ | LOp HDemote _ | LLoaded _ => false | _ => true end.
+
+Inductive prog :=
+| PDone                                  (* sys.exit / return / uncaught exception *)
+| PLoaded (k : bool -> prog)             (* cluster, promoted = Cluster.deserialize(..., try_promote_to_submitter=True, ...) *)
+| PDemote (k : result -> prog)           (* cluster.demote_from_submitter(); k sees the outcome *)
+| PAny (k : prog)                        (* any number of neutral calls (a try-body that may raise at any point), then k *)
+| PChoice (a b : prog).                  (* data-dependent branch *)
+
+(* evs is a (prefix of a) run of p: a process may stop anywhere (killed, exception propagating) *)
+Fixpoint accepts (p : prog) : list lev -> bool :=
+  match p with
+  | PDone => fun evs => match evs with [] => true | _ => false end
+  | PLoaded k => fun evs => match evs with [] => true | LLoaded b :: r => accepts (k b) r | _ => false end
+  | PDemote k => fun evs => match evs with [] => true | LOp HDemote x :: r => accepts (k x) r | _ => false end
+  | PAny k => fix star (evs : list lev) : bool :=
+                match evs with [] => true | e :: r => (neutral e && star r) || accepts k evs end
+  | PChoice a b => fun evs => accepts a evs || accepts b evs
+  end.
+
+Definition p_exit : result -> prog := fun _ => PDone.
+
+(* jade/cli/try_submit_jobs.py: not promoted -> exit; complete -> demote, exit;
+   else try: submit_jobs(cluster) ... finally: demote *)
+Definition prog_try_submit : prog :=
+  PLoaded (fun promoted => if promoted then PChoice (PDemote p_exit) (PAny (PDemote p_exit)) else PDone).
+(* jade/cli/cancel_jobs.py, one iteration of the retry loop (each iteration loads a new handle):
+   not promoted -> sleep, next iteration; complete -> demote, exit; else cancel_jobs(cluster)
+   (mark_canceled; an exception leaves without demoting), demote *)
+Definition prog_cancel : prog :=
+  PLoaded (fun promoted => if promoted then PChoice (PDemote p_exit) (PAny (PDemote p_exit)) else PDone).
+(* jade/cli/resubmit_jobs.py: incomplete -> demote ONLY IF promoted, exit; assert promoted;
+   (bad submission groups -> demote, exit); prepare_for_resubmission ...; try: submit_jobs finally: demote *)
+Definition prog_resubmit : prog :=
+  PLoaded (fun promoted =>
+    PChoice (if promoted then PDemote p_exit else PDone)
+            (if promoted then PAny (PDemote p_exit) else PDone)).
+(* before "resubmit-jobs on an incomplete submission demotes only if it was promoted" (D5) *)
+Definition prog_resubmit_old : prog :=
+  PLoaded (fun promoted =>
+    PChoice (PDemote p_exit)
+            (if promoted then PAny (PDemote p_exit) else PDone)).
+(* JobSubmitter.run_submit_jobs: the handle comes from Cluster.create (promoted);
+   try: submit_jobs finally: demote *)
+Definition prog_run_submit : prog := PAny (PDemote p_exit).
+(* JobRunner._complete_hpc_job, one iteration: promoted -> try: complete_hpc_job_id finally: demote *)
+Definition prog_complete_hpc : prog :=
+  PLoaded (fun promoted => if promoted then PAny (PDemote p_exit) else PDone).
+(* show-status, wait, hpc-jobs, ...: Cluster.deserialize without promotion, read only *)
+Definition prog_reader : prog := PLoaded (fun _ => PAny PDone).
+
+Definition cli_programs : list prog :=
+  [prog_try_submit; prog_cancel; prog_resubmit; prog_complete_hpc; prog_reader].
